@@ -305,6 +305,7 @@ func runC10(c *ev.Ctx) {
 	runOn(en, nodes, p3, "all trees x (own paths + corruptions + all paths of <= 3 segments)", true)
 	runOn(en, nodesDeep, pDeep, "small trees x all paths of <= 4 segments", false)
 	c10Spellings(c)
+	c10AfterEdits(c, en, nodes)
 	if c.Expired() {
 		c.Cut("deadline reached")
 	}
